@@ -650,7 +650,11 @@ impl<'de, R: Read<'de>> Parser<R> {
                 if SYMBOL_EXTENDED.contains(&peek) {
                     Token::Symbol(self.parse_symbol()?.into())
                 } else {
-                    return Err(self.peek_error(ErrorCode::ExpectedSomeValue));
+                    // Consume the offending byte, so that a caller which
+                    // carries on after the error does not see it again.
+                    let err = self.peek_error(ErrorCode::ExpectedSomeValue);
+                    self.eat_char();
+                    return Err(err);
                 }
             }
         };
